@@ -179,6 +179,15 @@ class Hang(Exception):
 REQUEST_TIMEOUT = int(os.environ.get("VERIF_REQUEST_TIMEOUT", "120"))
 
 
+def patience(seconds):
+    """a deadline stretched by the machine's load (runnable tasks per core above one, at most tenfold)"""
+    try:
+        over = max(0.0, os.getloadavg()[0] / (os.cpu_count() or 1) - 1.0)
+    except OSError:
+        over = 0.0
+    return int(seconds * (1.0 + min(over, 9.0)))
+
+
 class Proc:
     """a line-protocol process (implsrv or modeldrv); every answer has a deadline"""
     def __init__(self, argv, env=None):
@@ -199,11 +208,13 @@ class Proc:
 
     def _readline(self, req):
         import queue
+        # the deadline is stretched by the machine's load (runnable tasks per core above one): a busy machine is not a hang
+        deadline = patience(REQUEST_TIMEOUT)
         try:
-            return self.q.get(timeout=REQUEST_TIMEOUT)
+            return self.q.get(timeout=deadline)
         except queue.Empty:
             self.p.kill()
-            raise Hang(self.argv[0], req, REQUEST_TIMEOUT)
+            raise Hang(self.argv[0], req, deadline)
 
     def ask(self, req):
         try:
@@ -268,6 +279,7 @@ def cli(args, cwd, env=None, timeout=60, stdout=None):
     if env:
         e.update(env)
     try:
+        timeout = patience(timeout)
         if stdout is None:
             p = subprocess.run([os.path.join(CACHE, "gontainer")] + args, cwd=cwd, env=e, timeout=timeout,
                                stdout=subprocess.PIPE, stderr=subprocess.PIPE)
